@@ -269,7 +269,8 @@ def parse_tree(tree: Dict[str, Any], core: bool = False) -> Dict[str, Any]:
     finally:
         os.chdir(cwd)
         shutil.rmtree(base, ignore_errors=True)
-        logging.Logger.manager.loggerDict.pop(f"pyrtma.parser ({P.Parser._instance_count})", None)
+        from . import priv as _PV          # forget the per-instance loggers (named after a private counter)
+        _PV.drop_parser_loggers()
 
 
 # --------------------------------------------------------------------------------------------------
@@ -766,24 +767,32 @@ class Sock:
     def sendall(self, b): self.sent.append(bytes(b))
     def close(self): pass
     def fileno(self): return 0
-pc.select.select = lambda r, w, x, t=None: (r, w, x)
+import select as _sel
+_ready = lambda r, w, x, t=None: (r, w, x)
+for _k, _v in list(vars(pc).items()):          # `from select import select [as ...]` in client.py
+    if _v is _sel.select:
+        setattr(pc, _k, _ready)
+_sel.select = _ready                           # `select.select(...)`
+def _behind(c, prop, default):                 # the attribute behind a read-only property, whatever it is called
+    cands = [n for n in getattr(type(c), prop).fget.__code__.co_names if n in vars(c)]
+    return cands[0] if len(cands) == 1 else default
 out = {}
 for timecode in (False, True):
     c = pc.Client(module_id=11, timecode=timecode)
-    c._sock = Sock(); c._connected = True
+    setattr(c, _behind(c, "sock", "_sock"), Sock()); setattr(c, _behind(c, "connected", "_connected"), True)
     for n in names:
         cls = getattr(mod, "MDF_" + n)
-        c._sock.sent.clear()
+        c.sock.sent.clear()
         c.send_message(cls(), dest_mod_id=0)
-        hdr = c.header_cls.from_buffer_copy(c._sock.sent[0][: __import__("ctypes").sizeof(c.header_cls)])
+        hdr = c.header_cls.from_buffer_copy(c.sock.sent[0][: __import__("ctypes").sizeof(c.header_cls)])
         out.setdefault(n, {"type_hash": cls.type_hash, "type_id": cls.type_id, "versions": [], "signal_versions": []})["versions"].append(hdr.version)
         # a signal of ANOTHER type sent right after it: its version field is that other type's hash or 0, never this one's
         other = names[(names.index(n) + 1) % len(names)]
         ocls = getattr(mod, "MDF_" + other)
-        c._sock.sent.clear()
+        c.sock.sent.clear()
         try:
             c.send_signal(ocls.type_id)
-            h2 = c.header_cls.from_buffer_copy(c._sock.sent[0][: __import__("ctypes").sizeof(c.header_cls)])
+            h2 = c.header_cls.from_buffer_copy(c.sock.sent[0][: __import__("ctypes").sizeof(c.header_cls)])
             out[n]["signal_versions"].append([other, h2.version, ocls.type_hash])
         except Exception as e:
             out[n]["signal_versions"].append([other, "raised " + type(e).__name__, ocls.type_hash])
